@@ -1,2 +1,33 @@
-From HV Require Import Model.Ref.
-Theorem C10_tmp : True. Proof. exact I. Qed.
+(* C10 - reference origins are exactly the references written in schema-known values
+   (partial: self gating, the merge of origins across one-of alternatives and the final ordering
+   are modelled and proved; the walk over expressions is decided on the implementation against
+   generator ground truth). *)
+From Coq Require Import String List ZArith Bool Permutation.
+From HV Require Import Base.Pos Model.Addr Model.Ref Model.Collect Proofs.CollectProofs.
+
+(* self.* references yield an origin only where the body enables them *)
+Theorem C10_self_references_gated : forall addr r cs, traversal_to_local_origin addr true r cs false = None.
+Proof. exact self_gated. Qed.
+Print Assumptions C10_self_references_gated.
+
+Theorem C10_other_references_always : forall addr r cs allow a,
+  addr = Some a -> traversal_to_local_origin addr false r cs allow = Some (OLocal a r cs).
+Proof. exact non_self_always. Qed.
+Print Assumptions C10_other_references_always.
+
+(* merging the alternatives of a one-of never drops an origin already found and adds at most one
+   per new origin; an origin that differs from all existing ones in address or range is kept *)
+Theorem C10_merge_keeps_every_position : forall news origins,
+  (length origins <= length (append_origins origins news) <= length origins + length news)%nat.
+Proof. exact append_origins_length. Qed.
+Print Assumptions C10_merge_keeps_every_position.
+
+Theorem C10_distinct_reference_is_kept : forall origins n,
+  Forall (fun x => same_ref x n = false) origins -> merge_into origins n = None.
+Proof. exact unmatched_origin_is_kept. Qed.
+Print Assumptions C10_distinct_reference_is_kept.
+
+(* the result is a permutation of what was found (ordered by file and position) *)
+Theorem C10_ordering_adds_and_drops_nothing : forall l, Permutation l (sort_origins l).
+Proof. exact sort_origins_perm. Qed.
+Print Assumptions C10_ordering_adds_and_drops_nothing.
